@@ -166,7 +166,8 @@ let run_case oc (c : case) =
             | TrTypeChange -> "type_change" | TrUncleanLinkTarget -> "unclean_link_target"
             | TrLinkThroughLink -> "link_target_through_link" | TrClimbingLink -> "link_climbs_above_root"
             | TrDanglingParent -> "dangling_symlink_parent"
-            | TrRelativeName -> "relative_name"))
+            | TrRelativeName -> "relative_name"
+            | TrHiddenViaLink -> "hidden_reached_via_symlink"))
             (triggers cfg o !w);
           let before = List.length (dump_trace !w) in
           let (r, w') = if direct then step_direct dbase o !w else step base backup o !w in
